@@ -17,6 +17,7 @@ ops (strings hex-encoded, `-` = empty):
       form: none|bearer|lower|upper|nospace|dbl|basic|empty|bare|raw|tab|trail
   srv <proxy|upstream|admin> <auth> [<registry> <cluster> <status keys|->]
   hit <kind> <method> <path> <form>:<id> <form>:<id> <tenant>
+  sweep <kind> <form>:<id> <form>:<id> <tenant>     every registered route + neighbours + unknown paths
   up <ep,ep,…|->                               endpoints with an upstream in the fake manager
   http <host> <host without port> <isIP> <x-piko-endpoint> <form>:<id> <form>:<id> <tenant>
   tcp <raw segment> <decoded path> <form>:<id> <form>:<id> <tenant>
@@ -149,6 +150,23 @@ def throughAuth (st : St) (chain : List Gin.H) (r : Req) : Outcome ⊕ Option To
     | o => .inl o
   else .inr none
 
+/-- `:param` segments replaced by `x` -/
+def concretePath (p : String) : String :=
+  "/".intercalate ((p.splitOn "/").map fun s => if s.startsWith ":" ∨ s.startsWith "*" then "x" else s)
+
+def altSlash (p : String) : String :=
+  if p.endsWith "/" then Gin.dropTrailingSlash p else p ++ "/"
+
+/-- the probes of a sweep: every registered route (sorted by `METHOD:path`), its
+trailing-slash neighbour, the same path under another method; then unknown paths -/
+def probesOf (e : Gin.Engine) : List (String × String) :=
+  let rs := (e.routes.map fun r => (r.method ++ ":" ++ r.path, r)).mergeSort (fun a b => decide (a.1 ≤ b.1))
+  (rs.flatMap fun p =>
+    let m := p.2.method
+    let cp := concretePath p.2.path
+    [(m, cp), (m, altSlash cp), (if m = "GET" then "POST" else "GET", cp)]) ++
+  [("GET", "/"), ("GET", "/no/such/path"), ("POST", "/no/such/path"), ("DELETE", "/_piko/v1/tcp/x"), ("HEAD", "/status")]
+
 def showDeny : Outcome → String
   | .reject s reason => toString s ++ " " ++ (if reason = "" then "-" else us reason)
   | .panic => "panic -"
@@ -182,6 +200,8 @@ def step (st : St) : List String → St × String
       let f : TokenFacts :=
         { wellFormed := shape = "ok", alg := alg', kid := k,
           signer := if tamper = "none" then sg else .other,
+          -- every signature the harness produces for an ES* header is 64 bytes, except `nosig`
+          sigLenOk := !(algFam alg' == .es) || (alg' == "ES256" && signer != "nosig"),
           exp := e, nbf := n, aud := hexList aud, iss := hx iss, endpoints := hexList eps }
       ({ st with toks := (tokName id, f) :: st.toks.filter (fun p => p.1 ≠ tokName id) }, "ok")
     | _, _, _, _ => (st, "bad-op")
@@ -218,6 +238,16 @@ def step (st : St) : List String → St × String
          | .inl o => (st, "hit deny " ++ showDeny o)
          | .inr _ => (st, "hit pass"))
     | _, _ => (st, "bad-op")
+  | ["sweep", kind, x, a, tenant] =>
+    match st.srvs.lookup kind, parseReq x a tenant with
+    | some (e, _), some r =>
+      let letters := (probesOf e).map fun p =>
+        match Gin.dispatch e p.1 p.2 with
+        | .redirect _ => "r"
+        | .route rt _ => (match throughAuth st rt.chain r with | .inl (.panic) => "x" | .inl _ => "d" | .inr _ => "p")
+        | .noRoute chain => (match throughAuth st chain r with | .inl (.panic) => "x" | .inl _ => "d" | .inr _ => "p")
+      (st, "sweep " ++ String.join letters)
+    | _, _ => (st, "bad-op")
   | ["up", eps] => ({ st with ups := hexList eps }, "ok")
   | ["http", _host, hostnp, isip, xep, x, a, tenant] =>
     match st.srvs.lookup "proxy", parseReq x a tenant with
@@ -245,19 +275,19 @@ def step (st : St) : List String → St × String
     match st.srvs.lookup "upstream", parseReq x a tenant with
     | some (e, _), some r =>
       (match Gin.dispatch e "GET" (hx path) with
-       | .redirect code => (st, "conf " ++ toString code ++ " - reg=none tenant=-")
+       | .redirect code => (st, "conf " ++ toString code ++ " - reg=none")
        | .route rt ps =>
          (match throughAuth st rt.chain r with
-          | .inl o => (st, "conf " ++ showDeny o ++ " reg=none tenant=-")
+          | .inl o => (st, "conf " ++ showDeny o ++ " reg=none")
           | .inr tok =>
             (match upstreamRoute tok (ps.headD "") with
-             | .proceed _ routed tn => (st, "conf 101 - reg=" ++ hexEnc routed ++ " tenant=" ++ hexEnc tn)
-             | .notPermitted _ => (st, "conf 401 endpoint_not_permitted reg=none tenant=-")
-             | .badRequest => (st, "conf 400 - reg=none tenant=-")))
+             | .proceed _ routed _ => (st, "conf 101 - reg=" ++ hexEnc routed)
+             | .notPermitted _ => (st, "conf 401 endpoint_not_permitted reg=none")
+             | .badRequest => (st, "conf 400 - reg=none")))
        | .noRoute chain =>
          (match throughAuth st chain r with
-          | .inl o => (st, "conf " ++ showDeny o ++ " reg=none tenant=-")
-          | .inr _ => (st, "conf 404 - reg=none tenant=-")))
+          | .inl o => (st, "conf " ++ showDeny o ++ " reg=none")
+          | .inr _ => (st, "conf 404 - reg=none")))
     | _, _ => (st, "bad-op")
   | _ => (st, "bad-op")
 
